@@ -31,18 +31,22 @@ def _mods(repo):
             ("load", "classify", "zeta_grid", "rise", "recession", "user_interface", "fit_offsets")}
 
 
-def planted(seed, n_events=4, sy=0.8, drop=(0.35, 0.9)):
+def planted(seed, n_events=4, sy=0.8, drop=(0.35, 0.9), weak=False):
     """Returns dict(rain, et, wl, truth) — lists of (epoch, value).  Every planted storm is a storm for the thresholds the
     stand-ins use (4 mm/h rain, 8 mm/h rise): a draw with a weaker one (possible near the top of the master curve) is
     rejected and redrawn from a derived seed, so that the planted ranges are a valid oracle."""
-    for attempt in range(200):
-        d = _planted(seed if attempt == 0 else seed * 1000003 + attempt, n_events, sy, drop)
-        if all(ev[0] != "storm" or ((ev[3] - ev[2]) / ev[1] >= 6.0) for ev in d["events"]):
+    for attempt in range(2000):
+        d = _planted(seed if attempt == 0 else seed * 1000003 + attempt, n_events, sy, drop, weak)
+        if d is None:
+            continue
+        # weak=True: one storm of varying intensity (7.2, 12, 7.2 mm/h with rises of 9, 15, 9 mm/h): a storm for the
+        # thresholds used (4 mm/h rain, 8 mm/h rise), but cut to its middle step if the two thresholds are mixed up
+        if all(len(ev) > 5 or (ev[3] - ev[2]) / ev[1] >= 6.0 for ev in d["events"] if ev[0] == "storm"):
             return d
     raise RuntimeError("no admissible planted dataset for seed %r" % seed)
 
 
-def _planted(seed, n_events=4, sy=0.8, drop=(0.35, 0.9)):
+def _planted(seed, n_events=4, sy=0.8, drop=(0.35, 0.9), weak=False):
     rng = random.Random(seed)
     # master recession curve on the lattice: strictly decreasing, slowing down
     zr = [60.0]
@@ -70,17 +74,27 @@ def _planted(seed, n_events=4, sy=0.8, drop=(0.35, 0.9)):
             start_level = cur
         target = max(0, pos - rng.randint(6, 14)) if ev else pos
         rise = zr[target] - start_level
-        if rise <= 6.0 * s:            # keep every increment well above the jump threshold
+        weights = None
+        if weak and ev == 1:
+            # total rise between 15 and 18 mm, split 6 : 10 : 6
+            cands = [t for t in range(0, pos) if 15.0 < zr[t] - start_level < 18.0]
+            if not cands:
+                return None
+            target = rng.choice(cands)
+            rise = zr[target] - start_level
+            s, weights = 3, (6.0, 10.0, 6.0)
+        elif rise <= 6.0 * s:            # keep every increment well above the jump threshold
             target = max(0, target - 10)
             rise = zr[target] - start_level
         inc = rise / s
         intensity = inc * sy / (STEP / 3600.0)
         lvl = start_level
         for k in range(s):
-            emit(lvl, intensity)
-            lvl += inc
+            step_inc = inc if weights is None else rise * weights[k] / sum(weights)
+            emit(lvl, step_inc * sy / (STEP / 3600.0))
+            lvl += step_inc
         pos = target
-        events.append(("storm", s, start_level, zr[target], intensity))
+        events.append(("storm", s, start_level, zr[target], intensity) + (("varying",) if weights else ()))
         ranges["storm"].append((start_level, zr[target]))
         # one drizzle step (rain above zero but below the storm threshold, level unchanged): the
         # sample that ends the last big increment is rainy, so the recession that follows is clean
@@ -212,8 +226,9 @@ def run_C06(repo, tier, seed):
     uninformative = 0
     failures, samples = [], []
     cases = [(seed * 100 + k, g) for k in range(2 if tier == "quick" else 12) for g in ((1.0, 0.5) if tier == "quick" else (1.0, 0.5, 2.5))]
+    cases = cases + [(-(seed * 100 + 1), 1.0)]          # negative: the dataset with one weak storm (weak=True)
     for s, grid in cases:
-        data = planted(s)
+        data = planted(s) if s >= 0 else planted(-s, weak=True)
         case = {"planted_seed": s, "grid_step_mm": grid, "events": data["events"][:6]}
         try:
             con = workflow(repo, data, grid, cli=True)
